@@ -488,7 +488,7 @@ func systemCase(g *gen, dist map[string]int) (string, []map[string]string, error
 			obs = append(obs, obsZ(z))
 			dist[fmt.Sprintf("sys-visitor:%d:rid=%s", z, ridKind)]++
 			dist["sign:"+kind]++
-			if forced && z != 0 {
+			if forced && z == 2 { // "custom listener ... doesn't exist" although the name has just been registered
 				fail("system:incumbent-unreachable-after-refused-duplicate",
 					"after a second session's registration of the same name was refused (registration race), a correctly signed visitor of an allowed user is refused by the live proxy",
 					fmt.Sprintf("%s resp=%q", opText, resp.Error))
@@ -630,7 +630,7 @@ func systemCase(g *gen, dist map[string]int) (string, []map[string]string, error
 			obs = append(obs, obsNh(resp, notified, ownerName, sid, others, -1, -1))
 			dist[fmt.Sprintf("sys-nathole:pre=%v:resp=%d:notified=%v", pre, resp, notified)]++
 			dist["sign:"+kind]++
-			if forced && !notified {
+			if forced && !notified && resp == 1 { // "xtcp server ... doesn't exist"
 				fail("system:incumbent-unreachable-after-refused-duplicate",
 					"after a second session's registration of the same name was refused (registration race), a correctly signed NAT-hole request of an allowed user is refused by the live xtcp proxy",
 					fmt.Sprintf("%s resp=%d", opText, resp))
